@@ -196,11 +196,13 @@ class EvolveAppTask(BaseEvolutionTask):
 
         logger.debug('New models: %r', new_models)
 
-        if migrating:
+        if migration_executor is not None:
             # If we have any applied migration names we wanted to record, do it
-            # before we begin any migrations.
+            # before we begin any migrations. This is needed even if there
+            # are no migrations left to run (for instance, when an app moves
+            # to migrations and all of its migrations are marked as applied).
             applied_migrations = \
-                state['migration_executor'].loader.extra_applied_migrations
+                migration_executor.loader.extra_applied_migrations
 
             # The initial migrations in the pre-migration plan were only
             # added to this list to plan what comes after them. They're
